@@ -229,8 +229,12 @@ def assign_storage(cases):
             continue
         if _z.crc32(("s" + str(c.get("id"))).encode()) % 5 == 0:
             ops[0]["op"] = "create" if ops[0]["op"] == "create_temporary" else "lib_create"
-            ops[0]["dir"] = "@W/" + str(c.get("id"))
+            # ... and every third of those is opened by a path relative to the working directory ("@R/<id>")
+            rel = _z.crc32(("r" + str(c.get("id"))).encode()) % 3 == 0
+            ops[0]["dir"] = ("@R/" if rel else "@W/") + str(c.get("id"))
             ENV_STATS["cases_moved_to_an_on_disk_library"] = ENV_STATS.get("cases_moved_to_an_on_disk_library", 0) + 1
+            if rel:
+                ENV_STATS["cases_opened_by_a_relative_directory"] = ENV_STATS.get("cases_opened_by_a_relative_directory", 0) + 1
 
 
 def _run_chunk(exe, cfg, cases, workdir, tag, stall_timeout, on_result):
